@@ -77,6 +77,14 @@ def drive_cells(ncells, nwriters, events, tag):
     rd = ss.slot_readv(si, list(range(ncells)), [(0, 8)])
     cells = [struct.unpack(">Q", rd[i][0])[0] for i in range(ncells)]
     drive_cells.last_clobbers = clobbers
+    # applied writes at the end: the cell still holds the writer's version, or an informed successor replaced it
+    drive_cells.last_orphans = []
+    for j in range(nwriters):
+        for i in acked[j]:
+            if cells[i] == j + 1:
+                continue
+            if not any(o != j and i in acked[o] and snaps[o] is not None and snaps[o][i] == j + 1 for o in range(nwriters)):
+                drive_cells.last_orphans.append((j, i, cells[i]))
     return cells, surprised, acked
 
 
@@ -107,6 +115,9 @@ def one_case(ctx, idx, ncells, nwriters, events, terms, info, k=None):
     case = {"cells": ncells, "writers": nwriters, "events": events}
     # oracle (Props/C12.v applied_write_on_untouched_cell, stated on the real server): an applied write never lands
     # on a share another writer has replaced since this writer's survey
+    for (j, i, now) in drive_cells.last_orphans:
+        ctx.oracle_fail("applied-write-replaced-by-uninformed-writer", "writer %d's applied write to share %d was replaced (share now holds version %d) "
+                        "by a writer whose survey had not seen writer %d's version there" % (j, i, now, j), case=case)
     for (j, i) in drive_cells.last_clobbers:
         ctx.oracle_fail("silent-clobber", "the server applied writer %d's guarded write to share %d although another writer had replaced it "
                         "since writer %d's survey" % (j, i, j), case=case)
